@@ -41,6 +41,16 @@ func dupTargets(eps []EpSpec) bool {
 	return false
 }
 
+// validWeights: HAProxy takes weights 0..256, in the files and in `set server … weight`.
+func validWeights(eps []EpSpec) bool {
+	for _, e := range eps {
+		if e.Weight < 0 || e.Weight > 256 {
+			return false
+		}
+	}
+	return true
+}
+
 func hasLabel(eps []EpSpec) bool {
 	for _, e := range eps {
 		if e.Label != "" {
@@ -114,7 +124,7 @@ func (o *Oracle) Check(st *Step, obs *StepObs, c02, c11 bool) []Finding {
 		changedEps = true
 		slots := len(obs.BeforeBacks[b.ID()])
 		if !sameButEps(b, last) || !b.Dyn || b.Preserve || b.Resolver != "" || hasLabel(b.Eps) || hasLabel(last.Eps) ||
-			len(b.Eps) > slots || dupTargets(b.Eps) || dupTargets(last.Eps) {
+			len(b.Eps) > slots || dupTargets(b.Eps) || dupTargets(last.Eps) || !validWeights(b.Eps) {
 			inCapacity = false
 		}
 	}
